@@ -928,3 +928,40 @@ def exc_3(ctx, rep, modules=('parso/python/errors.py',)):
     if not n_sites:
         raise AnalysisError('EXC-3: no codec probe found in %s' % (modules,))
     rep.stat('exc3_codec_probe_sites', n_sites)
+
+
+# ---------------------------------------------------------------------------
+# CACHE-9 / CACHE-10
+# ---------------------------------------------------------------------------
+def cache_9_10(ctx, rep):
+    rep.rule('CACHE-9', 'a cache entry is pickled verbatim: the entry class defines no __getstate__ / __setstate__ / __reduce__ '
+                        '(a hook that rebuilds the entry on load replaces the stored freshness reference by load-time defaults)')
+    rep.rule('CACHE-10', 'whether try_to_save_module writes the pickle depends only on what the caller asked for and on the '
+                         'file having a path / a readable mtime - never on the state of the cache file that is already there '
+                         '(a damaged entry with a fresh mtime would never be repaired)')
+    prog = ctx.prog
+    item = prog.cls(CACHE, '_NodeCacheItem')
+    hooks = [m for k in item.mro if isinstance(k, Cls) for m in k.methods
+             if m in ('__getstate__', '__setstate__', '__reduce__', '__reduce_ex__', '__getnewargs__', '__getnewargs_ex__')]
+    rep.ob('CACHE-9', CACHE, item.qual, 'no custom pickling hook on the entry class', not hooks,
+           'the entry class defines %s: what is loaded is not what was stored' % hooks)
+    ts = ctx.view(prog.func(CACHE, 'try_to_save_module'), keep=KEEP)
+    from ..facts import guards_of
+    params = set(ts.all_params())
+    n_calls = 0
+    for n in walk_own(ts.node):
+        if isinstance(n, ast.Call) and norm(n.func) == '_save_to_file_system':
+            n_calls += 1
+            bad = None
+            for t, pol in guards_of(n):
+                for sub in ast.walk(t):
+                    if isinstance(sub, ast.Call):
+                        bad = sub                       # a condition that calls something: looks at state outside the arguments
+                    elif isinstance(sub, ast.Attribute) and not (isinstance(sub.value, ast.Name) and sub.value.id in params):
+                        bad = bad or sub
+            rep.ob('CACHE-10', CACHE, ts.qual, 'guards of the pickle write %s' % norm(n)[:60], bad is None,
+                   'the save is skipped depending on %s: an existing cache file that only looks fresh (torn by a crash, same '
+                   'mtime) is never overwritten, every new process misses the cache again' % (norm(bad) if bad is not None else ''),
+                   witness=norm(bad) if bad is not None else None)
+    if not n_calls:
+        raise AnalysisError('CACHE-10: try_to_save_module no longer reaches _save_to_file_system')
